@@ -1,5 +1,5 @@
-(* Known defects of the unchanged tree: full-strength statements, refutations by witness, and
-   the strongest restrictions that hold. *)
+(* Full-strength statements that were false before the repairs fe9bb7e / 9c3dee4 (LEAF flag kept
+   by GC:reregister, FINALIZE = ROOT); the former counterexamples are kept as regression Examples. *)
 From C10 Require Import Model Proofs Safety.
 Local Open Scope Z_scope.
 
@@ -14,18 +14,10 @@ Definition leaf_flag_sound_full : Prop := forall h, leaf_ok (run h gc_init).
 Definition leaf_witness : list op :=
   [OAlloc 4096 4 false false 0 0 []; ORealloc 4096 4096 64 []].
 
-Lemma leaf_flag_sound_refuted : ~ leaf_flag_sound_full.
-Proof.
-  intros H. specialize (H leaf_witness).
-  assert (E : exists it, items (run leaf_witness gc_init) = [(4096, it)] /\
-                         hasflag (iflags it) LEAF_BIT = true /\ idecl it = false /\ isize it = 64).
-  { eexists. vm_compute. repeat split. }
-  destruct E as (it & EI & F & D & S).
-  destruct (H 4096 it) as [X|X]; auto.
-  - rewrite EI. now left.
-  - congruence.
-  - rewrite S in X. vm_compute in X. discriminate.
-Qed.
+(* the former counterexample (alloc(4); realloc to 64): the grown block no longer carries LEAF *)
+Example leaf_witness_sound :
+  exists it, items (run leaf_witness gc_init) = [(4096, it)] /\ hasflag (iflags it) LEAF_BIT = false /\ isize it = 64.
+Proof. eexists. vm_compute. repeat split. Qed.
 
 (* reachability as the property means it: through every allocation that can hold a pointer and
    was not declared pointer-free by the user *)
@@ -37,7 +29,8 @@ Inductive treach (its : list (Z * item)) (seeds : list (list Z)) : Z -> Prop :=
 Definition reachable_kept_full : Prop := forall h stk a it,
   treach (items (run h gc_init)) (mark_seeds stk (run h gc_init)) a ->
   lookup a (items (run h gc_init)) = Some it ->
-  lookup a (items (collect stk (run h gc_init))) = Some it.
+  lookup a (items (collect stk (run h gc_init))) = Some it /\
+  (forall e, In e (log (collect stk (run h gc_init))) -> ev_addr e = a -> In e (log (run h gc_init))).
 
 (* alloc(4); realloc to 64 in place; a second block stored in it; the first block held by a
    root region; collect: the second block is gone *)
@@ -46,30 +39,9 @@ Definition kept_witness : list op :=
    OAlloc 4096 4 false false 0 0 []; ORealloc 4096 4096 64 [];
    OAlloc 8192 32 false false 0 0 []; OStore 4096 1 8192; ORootStore 256 0 4096].
 
-Lemma reachable_kept_refuted : ~ reachable_kept_full.
-Proof.
-  intros H.
-  assert (E : exists itA itB rw, items (run kept_witness gc_init) = [(8192, itB); (4096, itA)] /\
-     roots (run kept_witness gc_init) = [(256, (64, rw))] /\ In 4096 rw /\
-     idecl itA = false /\ isize itA = 64 /\ In 8192 (iwords itA)).
-  { do 3 eexists. vm_compute. repeat split; auto 10. }
-  destruct E as (itA & itB & rw & EI & ER & IR & DA & SA & WA).
-  specialize (H kept_witness [] 8192 itB).
-  assert (C : lookup 8192 (items (collect [] (run kept_witness gc_init))) = None) by (vm_compute; reflexivity).
-  rewrite C in H. 
-  assert (X : None = Some itB); [|discriminate]. apply H.
-  - apply (treach_step _ _ 4096 8192 itA).
-    + apply (treach_seed _ _ rw 4096).
-      * unfold mark_seeds. rewrite ER. cbn. auto.
-      * exact IR.
-      * rewrite EI. cbn. auto.
-    + rewrite EI. reflexivity.
-    + exact DA.
-    + rewrite SA. vm_compute. discriminate.
-    + exact WA.
-    + rewrite EI. cbn. auto.
-  - rewrite EI. reflexivity.
-Qed.
+Example kept_witness_kept :
+  keys (items (collect [] (run kept_witness gc_init))) = [8192; 4096].
+Proof. vm_compute. reflexivity. Qed.
 
 Lemma treach_reach g seeds a : NoDup (keys (items g)) -> leaf_ok g ->
   treach (items g) seeds a -> reach (items g) seeds a.
@@ -77,8 +49,9 @@ Proof.
   intros ND LO T. induction T as [r a Ir Ia K | a b it T IH L D S Ib K].
   - eapply reach_seed; eauto.
   - eapply reach_step; eauto.
-    destruct (hasflag (iflags it) LEAF_BIT) eqn:F; auto.
-    destruct (LO a it (lookup_In _ _ _ L) F); [congruence | lia].
+    unfold noscan. destruct (hasflag (iflags it) LEAF_BIT) eqn:F.
+    + destruct (LO a it (lookup_In _ _ _ L) F); [congruence | lia].
+    + cbn [orb]. destruct SCAN_SIZE_TEST; auto. cbn [andb]. lia.
 Qed.
 
 (* strongest true restriction: in every state where the LEAF flags are sound, a collection
@@ -101,7 +74,6 @@ Definition no_abort_full : Prop := forall h,
 Definition finroot_witness : list op :=
   [OAlloc 4096 32 false false 1 0 []; ORealloc 4096 8192 2000 []].
 
-Lemma no_abort_refuted : ~ no_abort_full.
-Proof.
-  intros H. destruct (H finroot_witness) as [E|E]; vm_compute in E; discriminate.
-Qed.
+Example finroot_witness_runs :
+  err (run finroot_witness gc_init) = None /\ keys (items (run finroot_witness gc_init)) = [8192].
+Proof. vm_compute. split; reflexivity. Qed.
